@@ -113,7 +113,17 @@ func init() {
 			return cases
 		},
 		Impl: runImplAPI,
+		// command level: hash-object, add, cat-file on generated work trees (the payload kinds of the pool as file contents)
+		Hist: func(ctx *Ctx) *HistCfg {
+			return &HistCfg{Prop: "C01", Cases: tierN(ctx, 120, 1200), MinSteps: 8, MaxSteps: 25, FreshPct: 30,
+				W: weights(Weights{"write": 22, "hash-object": 16, "cat-file": 16, "add": 14, "add-all": 4, "commit": 6, "rewrite-same": 4, "edit-same-size": 4,
+					"rm": 1, "reset": 1, "restore": 1, "branch": 0, "switch": 0, "junk": 0}),
+				Oracles: []HistOracle{orC01}}
+		},
 		Nontrivial: func(c Case, impl []string) bool {
+			if strings.HasPrefix(c.Name, "hist-") {
+				return len(impl) > 5
+			}
 			if c.Tag == "crowded-store" {
 				return len(impl) > 800 && strings.HasPrefix(impl[800], "ok ")
 			}
@@ -121,7 +131,7 @@ func init() {
 		},
 		Rule: "payload pool: SHA-1 block-boundary lengths, all 256 byte values, header look-alikes ('blob 3\\0abc', leading digits/spaces), " +
 			"invalid UTF-8, random and highly compressible strings up to 64 KiB (thorough: up to 3 MiB) x kinds blob/tree/commit; each case stores, " +
-			"reads back, stores other content, stores again and reads both back; plus one crowded store (700 objects, thorough 3000, in one store so that fan-out directories are shared; all read back and every 7th stored again), through NewObject/Write/GetObject in-process with an independent " +
+			"reads back, stores other content, stores again and reads both back; command level: adaptive histories of file writes, hash-object, add, cat-file -t/-p, commit on the real binary judged by the C01 specification (id printed = SHA-1 of 'blob <len>\\0<bytes>', stored blob = file bytes, cat-file gives kind and bytes back, stored objects never change) and compared with the model (`sha`, `cmd.cat-file`); plus one crowded store (700 objects, thorough 3000, in one store so that fan-out directories are shared; all read back and every 7th stored again), through NewObject/Write/GetObject in-process with an independent " +
 			"inflate + crypto/sha1; a case is distinct by its script and non-trivial when the stored object was read back successfully",
 		Theorems: []string{"C01.decode_encode", "C01.get_put", "C01.put_frame", "C01.put_idem", "C01.id_eq", "C01.encode_injective"},
 		Trusted:  []string{"compress/zlib (cross-checked by an independent inflate)", "crypto/sha1 (the model's executable SHA-1 is compared with it on every payload)"},
